@@ -41,13 +41,14 @@ class Q:
         self.witness_class = None
         self.t0 = time.time()
 
-    def valid(self, pre, claim, label, taint=False):
-        """claim must hold under pre: pre & !claim unsat"""
+    def valid(self, pre, claim, label, taint=False, allow_havoc=False):
+        """claim must hold under pre: pre & !claim unsat.  allow_havoc: the claim is ABOUT the verdict of an
+        opaque call (path-order / guard queries), so havoc symbols in it are intended."""
         if taint:
             self.unknown.append(f"{label}: operand depends on an unmodelled call (havoc)")
             return
         # fail closed: a counterexample whose CLAIM operands are havoc values is not a verdict
-        r, m = self.d.check(list(pre) + [z3.Not(claim)], label, hv_scope=[claim])
+        r, m = self.d.check(list(pre) + [z3.Not(claim)], label, hv_scope=None if allow_havoc else [claim])
         if r == "sat":
             self.fail.append((label, model_str(m)))
         elif r == "unknown":
@@ -627,7 +628,7 @@ def c10_suppressed_ptr_no_additionals(ctx):
         after = [j for j in addi if j > k[0]]
         if after:
             n_ans += 1
-            q.valid(p.cond, added, f"path {i}: additionals only when the PTR answer was really added (not suppressed)")
+            q.valid(p.cond, added, f"path {i}: additionals only when the PTR answer was really added (not suppressed)", allow_havoc=True)
         else:
             n_sup += 1
     if n_sup == 0 or n_ans == 0:
@@ -1086,7 +1087,7 @@ def c20_not_for_us_paths(ctx):
         vec_ins = [e for e in calls if e[1].startswith("Vec::<DnsRecordIntf>::insert")]
         if vec_ins and empt and isinstance(empt[0][2], BoolV):
             # a record is stored: either it is for us, or the name already had records
-            q.valid(p.cond, z3.Or(forus, z3.Not(empt[0][2].e)), f"path {i}: a record is only stored if it is for us or refreshes a name we already hold")
+            q.valid(p.cond, z3.Or(forus, z3.Not(empt[0][2].e)), f"path {i}: a record is only stored if it is for us or refreshes a name we already hold", allow_havoc=True)
         if empt and isinstance(empt[0][2], BoolV) and not vec_ins:
             r0 = q.d.check(p.cond + [z3.Not(forus), empt[0][2].e], f"classify: path {i}: unsolicited-and-unknown case?")[0]
             if r0 == "sat":
@@ -1363,7 +1364,7 @@ def c16_first_key_wins(ctx):
             q.fail.append(("keys are not compared case-insensitively when dropping duplicates", f"closure path {i}: key produced by {prod[1] if prod else None}"))
         rv = [e for e in p.events if e[0] == "ret" and e[1].split("::")[-1] == "insert"]
         if rv and isinstance(p.ret, BoolV) and isinstance(rv[0][2], BoolV):
-            q.valid(p.cond, p.ret.e == rv[0][2].e, f"closure path {i}: a property is kept iff its key is new")
+            q.valid(p.cond, p.ret.e == rv[0][2].e, f"closure path {i}: a property is kept iff its key is new", allow_havoc=True)
             q.nontrivial += 1
     return q.result()
 
